@@ -354,7 +354,9 @@ class ParallelObserverExpression(ObserverExpression):
     def _create_graphs(self, branches):
         left_graphs = self._left._create_graphs(branches=branches)
         right_graphs = self._right._create_graphs(branches=branches)
-        return left_graphs + right_graphs
+        # Equal graphs describe the same observation: keep each one once so
+        # that the result can always be used as the branches of a parent.
+        return list(dict.fromkeys(left_graphs + right_graphs))
 
 
 def join(*expressions):
